@@ -266,16 +266,20 @@ PROPS = {
   'assumptions': ['"finish Ok => complete" is checked for every history in which the sink never failed (parameter errors of earlier calls do not excuse anything), for histories whose transient sink failure hit at a chunk boundary and was retried by the caller, and for histories without any earlier Err; it is NOT demanded when a sink failure tore a chunk (bytes of a chunk accepted, then the error) or was not retried: no later call can repair that stream'],
  },
  'C03': {
-  'level_text': 'Coq theorem (closed under the global context): for every filter setting incl. Adaptive, every pixel size, every row length (multiple of it) and every list of rows, the decoder\'s row pipeline (equal to the specification: C01) '
-                'applied to the stream of the model of the encoder\'s row loop returns exactly the rows; the encoder never refuses well-shaped rows. Composes C14 (filters are inverse incl. first row). Stream-writer buffering, chunk writer, '
-                'short-writing sinks and the compressors are tied by the correspondence (exact filtered scanlines predicted by the extracted model; round trip through the crate\'s decoder AND an independent reference decoder).',
-  'level_note': 'Trusted: Coq kernel; translator (Paeth predictors, filter-byte decoding); hand models of filter.rs loops and of the encoder row loop (coq/Model/EncodePipeline.v) tied by differential execution; fdeflate / flate2 '
-                'compress such that inflating returns the input (contract, checked every run); StreamWriter/ChunkWriter/write_all buffering not proved.',
+  'level_text': 'Coq theorems (closed under the global context): for every filter setting incl. Adaptive, every pixel size, every row length (multiple of it) and every list of rows, the decoder\'s row pipeline (equal to the specification: C01) '
+                'applied to the stream of the model of the encoder\'s row loop returns exactly the rows; the encoder never refuses well-shaped rows. Composes C14 (filters are inverse incl. first row). STREAM WRITER (still images): however the '
+                'caller cuts the image into write calls, the scanline assembly of StreamWriter::write hands the compressor exactly the stream of the whole-image path (cut-invariance of write_all from every invariant state); whatever the bursts '
+                'in which the compressor writes, the chunk layer (ChunkWriter) emits its output cut into IDAT chunks of the chunk size: together the data, none empty, none longer, all but the last full. Both layers are tied call by call '
+                '(bytes accepted by every StreamWriter::write and the inflated IDAT stream; through a hook every ChunkWriter::write/flush result and emitted chunk). Short-writing sinks and the compressors are tied by the correspondence only '
+                '(round trip through the crate\'s decoder AND an independent reference decoder).',
+  'level_note': 'Trusted: Coq kernel; translator (Paeth predictors, filter-byte decoding); hand models of filter.rs loops, of the encoder row loop (coq/Model/EncodePipeline.v) and of the two stream-writer buffering layers '
+                '(coq/Model/StreamWriterBuf.v) tied by differential execution; fdeflate / flate2 compress such that inflating returns the input (contract, checked every run); write_all over failing/short-writing sinks and the animated '
+                'stream-writer path (known finding) are not modelled.',
   'gen_items': ['filter_paeth_encode', 'filter_paeth_decode', 'RowFilter::from_u8', 'sum_buffer.weight'],
-  'model_name': 'Model/EncodePipeline.v encode_image + Model/Pipeline.v unfilter_rows',
+  'model_name': 'Model/EncodePipeline.v encode_image + Model/Pipeline.v unfilter_rows + Model/StreamWriterBuf.v sw_trace / cw_trace',
   'rule': 'cases = 15 colour/depth pairs x 6 filter settings x widths 1..70 (crossing the 32-byte chunk and all remainders) x heights 1..8 x 17 compression settings x {write_image_data, stream_writer_with_size(1..4096)} x write '
           'partitions x sinks accepting 1-10 bytes per call; rows of 4-70 KiB (adaptive/vector paths); each output decoded by the crate and by the independent reference decoder and compared with the bytes given; filtered scanlines '
-          'compared with the Coq model for explicit deflate levels. distinct = (colour, depth, filter, compression, way, row length mod 32).',
+          'compared with the Coq model for explicit deflate levels; stream-writer call traces (pieces of 0 / 1 / row / row+1 / random bytes, data beyond the image) and chunk-layer call traces through the hook (chunk sizes 0..4096, writes of 0..2*size+3 bytes, flushes) against the extracted model. distinct = (colour, depth, filter, compression, way, row length mod 32).',
   'trusted_base': ['hand models tied by differential execution', 'independent reference decoder harness/src/c03.rs'],
   'assumptions': ['single (non-animated) image, as the property states', 'NoCompression / UltraFast-fallback paths bypass filtering (checked by round trip only)'],
  },
